@@ -265,6 +265,7 @@ func (u *Unit) checkPre(fr *Frame, st *State, ct *Contract, sig *types.Signature
 		hasRecv = *hasRecvOpt
 	}
 	vars, _ := u.bindArgsNamed(sig, args, hasRecv, ct.ParamNames)
+	u.aliasRenamedParams(vars, key)
 	env := &Env{u: u, st: st, old: st, vars: vars, pkgPath: ct.PkgPath, fvOverride: u.fvCallOrEmpty()}
 	for i, r := range ct.Requires {
 		label := fmt.Sprintf("pre@%s#%d", shortName(key), i+1)
@@ -284,6 +285,7 @@ func (u *Unit) applyContract(fr *Frame, st *State, ct *Contract, sig *types.Sign
 	hr := hasRecv
 	u.checkPre(fr, st, ct, sig, args, pos, key, &hr)
 	vars, _ := u.bindArgsNamed(sig, args, hasRecv, ct.ParamNames)
+	u.aliasRenamedParams(vars, key)
 	old := st.clone()
 	// frame
 	oldEnv := &Env{u: u, st: old, old: old, vars: vars, pkgPath: ct.PkgPath, fvOverride: u.fvCallOrEmpty()}
@@ -1080,5 +1082,27 @@ func (u *Unit) atCallChecks(fr *Frame, st *State, c *ssa.CallCommon, fn Val, pos
 		name := fmt.Sprintf("at@%s#%s/site%d", at.Callee, label, u.counters["at@"+at.Callee+"#"+label])
 		env := u.envFor(fr, st, u.entry, nil)
 		u.addOblNamed(st, "at", name, "at the call of "+shortName(key)+": "+at.Clause.Src, pos, u.evalBoolF(env, st, at.Clause.Expr))
+	}
+}
+
+// aliasRenamedParams: the callee's contract may still use the parameter names of
+// the reference tree; bind them to the parameters now at the same positions.
+func (u *Unit) aliasRenamedParams(vars map[string]envVar, key string) {
+	h, ok := u.prog.nameHints[key]
+	fn := u.prog.funcs[key]
+	if !ok || fn == nil || len(h.Params) != len(fn.Params) {
+		return
+	}
+	for i, old := range h.Params {
+		cur := fn.Params[i].Name()
+		if old == cur {
+			continue
+		}
+		if _, taken := vars[old]; taken {
+			continue
+		}
+		if v, ok := vars[cur]; ok {
+			vars[old] = v
+		}
 	}
 }
